@@ -265,6 +265,9 @@ func genProgram(t *rapid.T) testCase {
 				params = append(params, fmt.Sprintf("@builtin(%s) %s: %s", b.b, b.n, b.t))
 				g.declare(scopeVar{name: b.n, ty: b.t})
 				g.use("builtin:" + b.b)
+				if b.b == "num_workgroups" {
+					ifc.NumWorkgroups = true
+				}
 			}
 		}
 		seed = "gid.x"
@@ -412,6 +415,10 @@ func genProgram(t *rapid.T) testCase {
 		_ = outName
 	}
 	g.preamble(&w, seed)
+	if ifc.NumWorkgroups && ev.Excluded("dxil-numwg-unused") {
+		// keep the builtin used (known finding: PSV0 declares its buffer even when unused)
+		w.WriteString("  acc = acc ^ nwg.x;\n")
+	}
 	g.fnDepth = 0
 	g.body(&w, stmts)
 
